@@ -92,6 +92,13 @@ def handle (op : String) (j : Json) : Option (Except String Json) :=
       | .error _ => pure panicJ
       | .ok out => pure (jObj [("ok", jAttrs out),
                                ("new_len", jNat (newOf p.segs).length), ("old_len", jNat (oldOf p.segs).length)])
+  | "tr_update_attributions" => some do
+      let p ← partsOf j
+      let oldC ← textOf (← j.getObjVal? "old")
+      let newC ← textOf (← j.getObjVal? "new")
+      match updateAttributions oldC newC p.segs p.subst p.moves p.attrs p.author p.ts with
+      | .error _ => pure panicJ
+      | .ok out => pure (jObj [("ok", jAttrs out)])
   | "tr_transform" => some do
       let p ← partsOf j
       match transform p.segs p.subst p.moves p.attrs p.author p.ts with
